@@ -12,7 +12,7 @@ from .common import NS, NB, EXC, NET_CONNECT_RAISES, timeout_of
 from .ext_runtime import LOCK, lock_id
 from .iface import CI, CONN_RAISES
 from .m_models_fields import ORIGIN, REQUEST, URL, RESPONSE, origin_fields_equal
-from .m_models import dec_bytes
+from .m_models import dec_bytes, authority_host
 from .m_connection import HC, alpn_of, is_tls_scheme
 
 MOD = "httpcore._async.http_proxy."
@@ -309,7 +309,8 @@ def register(reg):
 
         def connect_target(self, c):
             ro = c.new(c.self, "TUN._remote_origin")
-            return z3.Concat(F(c, ro, "Origin.host"), bytes_lit(b":"), dec_bytes(F(c, ro, "Origin.port")))
+            # authority-form (RFC 7230 5.3.3): host ":" port with IP-literals bracketed
+            return z3.Concat(authority_host(F(c, ro, "Origin.host")), bytes_lit(b":"), dec_bytes(F(c, ro, "Origin.port")))
 
         def on_field_write(self, c, obj, key, v, node):
             lid = lock_id(c.new(c.self, "TUN._connect_lock"))
